@@ -11,10 +11,10 @@ Judge(r) ==
   IF r.status # "ok" THEN <<V(r.id, "violation", "", "formatting request not answered: " \o r.status)>>
   ELSE IF ~r.answered \/ ~r.fmtOk THEN <<>>                  \* C17 speaks about requests answered with edits, on error-free buffers
   ELSE IF Reproduces(r.doc, r.edits, r.formatted) THEN <<>>
-  ELSE IF ByteColumnWitness(r.doc, r.edits)
-    THEN <<V(r.id, "deviation", "EditColumnsInBytes", r.kind \o ": edits do not reproduce `mos format` on a buffer with a non-ASCII character before an edit")>>
   ELSE IF CrlfWitness(r.doc, r.edits)
     THEN <<V(r.id, "deviation", "EditInsideCrlfTerminator", r.kind \o ": an edit position lies between the CR and LF of a line terminator")>>
+  ELSE IF ByteColumnWitness(r.doc, r.edits)
+    THEN <<V(r.id, "deviation", "EditColumnsInBytes", r.kind \o ": edits do not reproduce `mos format` on a buffer with a non-ASCII character before an edit")>>
   ELSE IF ~WellFormed(r.doc, r.edits) THEN <<V(r.id, "violation", "", r.kind \o ": edits out of range, unordered or overlapping")>>
   ELSE <<V(r.id, "violation", "", r.kind \o ": applying the edits does not yield the text `mos format` writes")>>
 
